@@ -292,11 +292,11 @@ func Specs() map[string]*PropSpec {
 		Stubs:       []string{"c16Bank", "c16 registry"},
 	}
 	ek := func(fn string) Inst { return Inst{Pkg: "x/erc20/keeper", Fn: fn, Params: pm(), EngineReplay: true} }
-	c10 := []Inst{ek("VerifC10_ConvertCoin"), ek("VerifC10_ConvertERC20"), ek("VerifC10_Adversarial"), ek("VerifC10_Hook"), ek("VerifC10_HookUntrustedLog"), ek("VerifC10_OnRecvPacket"), {Pkg: "x/bank/keeper", Fn: "VerifC10_BankSendWrapper", Params: pm(), EngineReplay: true}, {Pkg: "x/evm/statedb", Fn: "VerifC10_NestedWriteSurvivesCommit", Params: pm(), EngineReplay: true}}
+	c10 := []Inst{ek("VerifC10_ConvertCoin"), ek("VerifC10_ConvertERC20"), ek("VerifC10_Adversarial"), ek("VerifC10_Hook"), ek("VerifC10_HookUntrustedLog"), ek("VerifC10_OnRecvPacket"), {Pkg: "x/bank/keeper", Fn: "VerifC10_BankSendWrapper", Params: pm(), EngineReplay: true}, {Pkg: "x/evm/statedb", Fn: "VerifC10_NestedWriteSurvivesCommit", Params: pm(), EngineReplay: true}, {Pkg: "precompiles/ics20", Fn: "VerifC10_Ics20NestedConversion", Params: pm(), EngineReplay: true}}
 	m["C10"] = &PropSpec{
-		ID: "C10", Pkgs: []string{"./x/erc20/keeper", "./x/bank/keeper", "./x/evm/statedb"}, Quick: c10, Thorough: c10,
+		ID: "C10", Pkgs: []string{"./x/erc20/keeper", "./x/bank/keeper", "./x/evm/statedb", "./precompiles/ics20"}, Quick: c10, Thorough: c10,
 		Bounds: map[string]string{
-			"quick":    "one conversion from an arbitrary fully backed state of one pair (coin-origin and ERC20-origin), amounts and balances < 2^100: MsgConvertCoin, MsgConvertERC20 against the honest contract ledger; both messages against an adversarial contract (every call: arbitrary revert / return value / reported balance / Approval log); the EVM hook over receipts of <= 2 logs (registered / unregistered contract x Transfer / Approval / unknown event x recipient module / other x amount); the hook against a registered contract that emits an unbacked Transfer log; the IBC receive middleware OnRecvPacket after the vouchers were credited (honest token, possibly paused; module enabled or not; any received amount): a success acknowledgement is returned only over a consistent, fully backed state; bank MsgSend wrapper (subUnlockedERC20Tokens) against a token that reports arbitrary balances, returns true / false from transfer and may emit an Approval: for a foreign (ERC20-origin) token the send succeeds only if the receiver was credited exactly the amount, transfer returned true and no Approval was emitted; conversion nested inside an EVM transaction (ICS-20 precompile -> automatic ERC20 conversion): a storage slot written by the outer execution, flushed by the precompile and then written by the nested execution through the keeper ends the transaction with the nested value unless the outer execution writes it again (4 values per write, real StateDB)",
+			"quick":    "one conversion from an arbitrary fully backed state of one pair (coin-origin and ERC20-origin), amounts and balances < 2^100: MsgConvertCoin, MsgConvertERC20 against the honest contract ledger; both messages against an adversarial contract (every call: arbitrary revert / return value / reported balance / Approval log); the EVM hook over receipts of <= 2 logs (registered / unregistered contract x Transfer / Approval / unknown event x recipient module / other x amount); the hook against a registered contract that emits an unbacked Transfer log; the IBC receive middleware OnRecvPacket after the vouchers were credited (honest token, possibly paused; module enabled or not; any received amount): a success acknowledgement is returned only over a consistent, fully backed state; bank MsgSend wrapper (subUnlockedERC20Tokens) against a token that reports arbitrary balances, returns true / false from transfer and may emit an Approval: for a foreign (ERC20-origin) token the send succeeds only if the receiver was credited exactly the amount, transfer returned true and no Approval was emitted; conversion nested inside an EVM transaction (ICS-20 precompile -> automatic ERC20 conversion): a storage slot written by the outer execution, flushed by the precompile and then written by the nested execution through the keeper ends the transaction with the nested value unless the outer execution writes it again (4 values per write, real StateDB); the real ICS-20 Precompile.Run around a transfer whose wrapped keeper converts 400 of the calling contract's 1000 tokens (or none) in the context it is given, the contract reading / burning its own tokens before and after the call, the module accepting or refusing: final token balance = total supply = 1000 - burnt - converted <= escrowed coins",
 			"thorough": "same",
 		},
 		Outside:     []string{"the Solidity bytecode of ERC20MinterBurnerDecimals (its ledger semantics are the stub)", "the acknowledgement / timeout IBC callbacks and pair toggles (they end in ConvertCoin / ConvertERC20, decided here); packet JSON decoding and bech32 re-prefixing on receive", "sequences of conversions (each step is proved from an arbitrary backed state: inductive)"},
